@@ -25,6 +25,9 @@ R.uf("base_has_optional", ["ref ArgsFormat"], "bool")
 for meth, uf in (("has_option", "base_has_option"), ("has_command_option", "base_has_command_option"),
                  ("has_argument", "base_has_argument")):
     R.contract(M_F + ":ArgsFormat." + meth, params={"name": "str?", "include_base": "bool"}, returns="bool",
+               # the views are those of the format INCLUDING its bases: a call that passes include_base=False is outside
+               # the contract (no call site of the package does) -- decided where the lookups are verified (C06)
+               requires=["[C06] include_base"],
                ensures=["result == (name is not None and %s(self, name))" % uf], assumed=True,
                note="query of the (finished, immutable) base format").defaults = {"include_base": True}
 R.contract(M_F + ":ArgsFormat.has_multi_valued_argument", params={"include_base": "bool"}, returns="bool",
